@@ -29,11 +29,20 @@ def run(tier, replay=None, v=None, memory_only=False):
         if tier == "thorough" and not memory_only:   # one large message per function (>= 1 MiB for adler's NMAX-style reductions; 256 KiB for the CRCs)
             big = (1 << 20) + 77 if fn.startswith("adler") else (1 << 18) + 77
             recs.append({"id": len(recs), "fn": fn, "seed": seeds[1], "msg": [255 if fn.startswith("adler") else rng.randrange(256) for _ in range(big)], "final_only": True})
+    # messages longer than 2^32 bytes: head, a run of n zero bytes (sparse mapping), tail; TLC advances the register by x^(8n) mod P
+    hrecs = []
+    if not memory_only:
+        for fn, nl in sorted(WIDTH.items()):
+            if fn == "crc32_iscsi": continue          # its length parameter is an int
+            nz = (1 << 32) + rng.randrange(1, 5000)
+            sd = [rng.randrange(65521) for _ in range(nl)] if fn.startswith("adler") else [rng.randrange(65536) for _ in range(nl)]
+            hrecs.append({"id": len(recs) + len(hrecs), "fn": fn, "seed": sd, "msg": [rng.randrange(256) for _ in range(40 + rng.randrange(60))], "nz": nz,
+                          "zbits": [int(c) for c in bin(nz)[2:]], "tail": [rng.randrange(256) for _ in range(1 + rng.randrange(300))], "final_only": True})
     inp, outp = os.path.join(wd, "in.ndjson"), os.path.join(wd, "vec.ndjson")
     # shard TLC over several JVMs
     shards = 8 if tier == "thorough" else 4
     import concurrent.futures as cf
-    parts = [recs[i::shards] for i in range(shards)]
+    parts = [(recs + [{k: x for k, x in h.items() if k != "nz"} for h in hrecs])[i::shards] for i in range(shards)]
     def gen(i):
         a, b = inp + str(i), outp + str(i)
         write_ndjson(a, parts[i])
@@ -42,7 +51,7 @@ def run(tier, replay=None, v=None, memory_only=False):
     with cf.ThreadPoolExecutor(shards) as ex:
         outs = list(ex.map(gen, range(shards)))
     vecs = {x["id"]: x for o, _ in outs for x in o}
-    if len(vecs) != len(recs): raise Infra("GenCrc incomplete")
+    if len(vecs) != len(recs) + len(hrecs): raise Infra("GenCrc incomplete")
     toks = [len(recs)]
     for rec in recs:
         vec = vecs[rec["id"]]
@@ -50,15 +59,21 @@ def run(tier, replay=None, v=None, memory_only=False):
         for e in vec["exp"]: toks += e
     vf = os.path.join(wd, "vec.txt")
     open(vf, "w").write(" ".join(map(str, toks)))
+    htoks = [len(hrecs)]
+    for rec in hrecs:
+        vec = vecs[rec["id"]]
+        htoks += [rec["id"], rec["fn"], len(vec["seed"])] + vec["seed"] + [len(rec["msg"])] + rec["msg"] + [rec["nz"] >> 32, rec["nz"] & 0xffffffff, len(rec["tail"])] + rec["tail"] + vec["exp"][0] + vec["exp"][1]
+    hf = os.path.join(wd, "huge.txt")
+    open(hf, "w").write(" ".join(map(str, htoks)))
     h = build_harness("h_crc", ["h_crc.c"])
     res = os.path.join(wd, "res.ndjson")
-    sh([h, vf, res, "1" if tier == "thorough" else "7"], timeout=3300)
+    sh([h, vf, res, "1" if tier == "thorough" else "7", hf, "0" if tier == "thorough" else "1"], timeout=3300)
     out = read_ndjson(res)
     summ = [o for o in out if o["e"] == "summary"][0]
     for m in out:
         if m["e"] != "mismatch": continue
         if memory_only and m["what"] not in MEMORY_KINDS: continue
-        rec = recs[m["vec"]]
+        rec = (recs + hrecs)[m["vec"]]
         v.violation("%s:%s" % (m["fn"], m["what"]), "%s %s: vector %d (%s seed %s) len=%d placement=%d off/split=%d" %
                     (m["fn"], m["what"], m["vec"], rec["fn"], rec["seed"], m["len"], m["placement"], m["off"]),
                     {"mismatch": m, "fn": rec["fn"], "seed_limbs": rec["seed"], "msg": rec["msg"][:5000], "verif_seed": seed(), "tier": tier})
@@ -68,12 +83,12 @@ def run(tier, replay=None, v=None, memory_only=False):
         return {"calls": summ["calls"], "faults": summ["faults"]}
     exercised = sorted(k for k, c in summ["variants"].items() if c > 0)
     missing = sorted(k for k, c in summ["variants"].items() if c <= 0)
-    cov = {"evaluations": summ["calls"], "distinct_nontrivial": summ["calls"] - 3 * len(recs) * 5, "split_points": summ["splits"], "vectors": len(recs),
+    cov = {"evaluations": summ["calls"], "distinct_nontrivial": summ["calls"] - 3 * len(recs) * 5, "split_points": summ["splits"], "vectors": len(recs), "huge_length_vectors": len(hrecs), "huge_length_calls": ([o for o in out if o["e"] == "hugesummary"] or [{"calls": 0}])[0]["calls"],
            "variants_exercised": exercised, "variants_absent": missing, "faults": summ["faults"],
            "spec_anchors": "published check values for '123456789' (CRC-16/T10-DIF D0DB, CRC-32 CBF43926, BZIP2 FC891918, CRC-32C E3069283, CRC-64/XZ, /WE, /GO-ISO, /NVME, Adler-32 091E01DE) and bit-serial = table-driven are ASSUMEd in GenCrc.tla on every run",
            "rule": "per (function, seed in {0, all-ones, random...}, message of N bytes from VERIF_SEED): TLC folds Checksums.tla once and emits the value of every prefix; harness calls every variant "
                    "(base, _00/_01/_02, by4, by8, by8_02, by16_10, dispatched; adler base/sse/avx2 and the B|(A-1) form) for every len 0..N (all <600, all within 72 of a multiple of 5552 or a power of two, stride elsewhere in quick; Adler-32 messages reach 11200 / 22400 bytes) x 3 placements (end/start flush against inaccessible pages, interior) "
-                   "+ all 64 alignments at 5 lengths; every split point of 6 total lengths with the first result fed as seed; copy form checks dst==src and canaries. distinct_nontrivial = calls with len>0",
+                   "+ all 64 alignments at 5 lengths; every split point of 6 total lengths with the first result fed as seed; copy form checks dst==src and canaries; per function one message of 2^32 + r bytes (head, sparse zero run, tail; expected value by multiplication with x^(8n) mod P in the spec, whole and composed; dispatched entry points in quick, every variant in thorough; crc32_iscsi excluded: int length). distinct_nontrivial = calls with len>0",
            "samples": [{"fn": r["fn"], "seed_limbs": r["seed"], "msg_first8": r["msg"][:8], "exp_len8_limbs": vecs[r["id"]]["exp"][8]} for r in recs[:3]]}
     cleanup(wd)
     return v.finish("exploration", cov, ["TLC evaluates Checksums.tla correctly", "seed/result conventions as documented in crc.h, crc64.h (read from the headers and crc_base.c comments)",
